@@ -49,13 +49,21 @@ META = {
         "equal the documented machine up to ANY* ANY* = ANY* (an escape-unaware collapse of '**' fails on backslash-star-star); "
         "case/whitespace-changing string methods on the pattern are rejected. Constant text wrapped around the accumulator at "
         "re.compile (`regex + '$'`) is part of the translation; an end anchor after everything is zero-width under fullmatch, an "
-        "anchor anywhere else is a mismatch. "
+        "anchor anywhere else is a mismatch. When the translator collects the literal pieces between the wildcards in a list "
+        "(`parts[-1] += ...`, `parts.append('')`) and assembles the regex afterwards, the assembly statements (loops over slices of "
+        "the parts, f-string templates, `len(parts)` tests) are evaluated for every abstract pattern; `(?=(?P<g>.*?X))(?P=g)` is "
+        "read as an atomic 'up to the first occurrence of X' wildcard, which equals ANY* X exactly when X is literal, the lazy form "
+        "is used and something elastic (another such wildcard or a plain ANY*) follows - otherwise it is a mismatch. Every "
+        "translated pattern may contain at most one backtracking ANY* (a failed fullmatch over k independent `.*` is exponential). "
         "R2 (API): match_with_wildcard returns True exactly under `pattern is None`, otherwise fullmatch (or match of an "
         "expression the translator ends in \\Z - not `$`, which also matches before a final line feed) of the unmodified name against "
         "the regex built from the unmodified pattern; the cached translator has the pattern as its only parameter, reads no mutable "
         "global, and every call passes the whole pattern. "
         "R3 (the two filter functions): a role inference over the nested loops (inventory key / domain / object type / name, item "
-        "fields; the Sphinx `domain:type` key cut at the same colon as from_sphinx and the native loader cut it; the 4-tuple item) shows that each coordinate is tested against its own filter - through "
+        "fields; the Sphinx `domain:type` key cut at the same colon as from_sphinx and the native loader cut it; the item as a "
+        "4-tuple or, through a helper that returns project_name/project_version/uri/display_name in tuple order, as Sphinx's item "
+        "class; a local list of a mapping's keys minus the keys without ':') shows that the flat Sphinx keys are walked grouped by "
+        "domain in order of first occurrence - the order in which the native nesting lists them - and that each coordinate is tested against its own filter - through "
         "match_with_wildcard or through _create_regex(<filter>).fullmatch, never Pattern.match/search and never on the joined "
         "domain:type key -, that all four tests dominate every yield (an `f is None or ...` disjunct is accepted; a boolean flag variable is judged "
         "by every value it can have been given; a plain string test - startswith, ==, in - of a coordinate as a fast path is "
@@ -66,7 +74,9 @@ META = {
         "iteration keeps the mappings' own order, that every loop visits every entry of its level (the iterable is never narrowed by "
         "using a filter as a literal key unless that alternative is chosen only under `'*' not in <filter>`), that no break/return cuts "
         "the enumeration short and that entries are skipped only after a failed wildcard test. "
-        "R4 (callers and the inv: link): callers hand every filter on under its own role (keyword pass-through in both "
+        "R4 (callers and the inv: link): the destination is taken apart literally (`href.partition(':')[2].partition('#')`, not "
+        "urlparse, which drops a `?query`), after normalizeLinkText plus the `%25` -> `%` step, and the path is split with "
+        "maxsplit 2 so that the object type is the remainder (types contain ':'); callers hand every filter on under its own role (keyword pass-through in both "
         "get_inventory_matches, the resolver, the CLI options; href parts inv:<invs>:<domains>:<otypes>#<target>); both "
         "get_inventory_matches implementations return the filter results without re-ordering; an abstract execution of "
         "render_link_inventory per number of path parts (1, 2, 3; IndexError under suppress/except, tuple assignments evaluated as a "
@@ -88,7 +98,9 @@ META = {
         "the href parse behind a helper call, the refuri store in the helper that receives the selected match."
     ),
     "not_decided": (
-        "matching results as values for concrete (pattern, name) pairs beyond what the extracted transducer implies; the behaviour of "
+        "matching results as values for concrete (pattern, name) pairs beyond what the extracted transducer implies; run-time bounds of "
+        "the regex engine beyond the structural 'at most one backtracking wildcard'; what markdown-it's normalizeLink / normalizeLinkText "
+        "encode and decode besides the tabled '%25' fact; the behaviour of "
         "re and posixpath.join themselves; contents of loaded inventories; hrefs with more than three path parts; behaviour of the "
         "filters when rewritten with comprehensions or extracted generator helpers (answered ANALYSIS-ERROR, not decided)"
     ),
@@ -101,6 +113,8 @@ META = {
         "re.escape(x) yields a regex matching exactly the string x",
         "fullmatch of a concatenation of LIT / ANY* fragments compiled with DOTALL is the documented matching relation",
         "a pattern without '*' consists of literal characters only (used to accept a guarded literal-key shortcut)",
+        "greedy-earliest lemma: in part0 ANY* part1 ... ANY* partk with literal parts, committing every wildcard but the last to the first occurrence of the part that follows it loses no match",
+        "markdown-it encodes a bare '%' of a destination as '%25' and normalizeLinkText leaves '%25' encoded",
         "the statements of a try body other than the href parse do not raise the handled exception",
         "a constant regex / replacement applied to the raw pattern treats every character it does not mention alike (regexes with classes, categories or '.' are answered ANALYSIS-ERROR)",
     ],
@@ -258,6 +272,7 @@ class Transducer:
 
     def _split_body(self) -> None:
         phase = "pre"
+        self.acc_list = False
         self.holders: dict[str, list] = {self.pat: []}  # names holding the (possibly rewritten) pattern
         self.rewrites: list = []
         for st in self.fi.node.body:
@@ -271,6 +286,11 @@ class Transducer:
                     tgt, val = st.targets[0].id, st.value
                 elif isinstance(st, ast.AnnAssign) and isinstance(st.target, ast.Name) and st.value is not None:
                     tgt, val = st.target.id, st.value
+                if tgt is not None and self.acc is None and isinstance(val, ast.List) and len(val.elts) == 1 and isinstance(val.elts[0], ast.Constant) and val.elts[0].value == "":
+                    # parts = [""]: the literal pieces between the wildcards are collected, the regex is assembled afterwards
+                    self.acc = tgt
+                    self.acc_list = True
+                    continue
                 if tgt is not None and isinstance(val, ast.Constant):
                     if val.value == "" and self.acc is None:
                         self.acc = tgt
@@ -303,7 +323,7 @@ class Transducer:
         for n in ast.walk(self.fi.node):
             if isinstance(n, (ast.FunctionDef, ast.Lambda, ast.While, ast.Try, ast.With)) and n is not self.fi.node:
                 raise Unsupported(f"{type(n).__name__} inside the translator")
-            if isinstance(n, ast.For) and n is not self.loop:
+            if isinstance(n, ast.For) and n is not self.loop and not (self.acc_list and n in self.post):
                 raise Unsupported("second loop inside the translator")
 
     def _classes(self) -> list[str]:
@@ -447,10 +467,17 @@ class Transducer:
                 if cls is None:
                     raise Unsupported("continue outside the loop")
                 return "continue"
-            if isinstance(st, ast.AugAssign) and isinstance(st.target, ast.Name) and st.target.id == self.acc and isinstance(st.op, ast.Add):
+            if not self.acc_list and isinstance(st, ast.AugAssign) and isinstance(st.target, ast.Name) and st.target.id == self.acc and isinstance(st.op, ast.Add):
                 out += self._frags(st.value, cls)
                 continue
-            if isinstance(st, ast.Assign) and len(st.targets) == 1 and isinstance(st.targets[0], ast.Name):
+            if self.acc_list and isinstance(st, ast.AugAssign) and isinstance(st.op, ast.Add) and self._is_last_part(st.target):
+                out += self._frags(st.value, cls)  # parts[-1] += ...
+                continue
+            if self.acc_list and isinstance(st, ast.Expr) and isinstance(st.value, ast.Call) and isinstance(st.value.func, ast.Attribute) and st.value.func.attr == "append" and isinstance(st.value.func.value, ast.Name) and st.value.func.value.id == self.acc and len(st.value.args) == 1 and not st.value.keywords:
+                out.append(("SEP",))  # parts.append(""): a wildcard boundary
+                out += self._frags(st.value.args[0], cls)
+                continue
+            if isinstance(st, ast.Assign) and len(st.targets) == 1 and isinstance(st.targets[0], ast.Name) and not (self.acc_list and st.targets[0].id == self.acc):
                 name = st.targets[0].id
                 if name in flags:
                     flags[name] = self._ev(st.value, flags, cls)
@@ -460,6 +487,149 @@ class Transducer:
                     continue
             raise Unsupported(f"statement `{short(st, 60)}` in {self.fi.qualname} is outside the understood subset")
         return "fall"
+
+    def _is_last_part(self, t: ast.expr) -> bool:
+        return isinstance(t, ast.Subscript) and isinstance(t.value, ast.Name) and t.value.id == self.acc and (
+            (isinstance(t.slice, ast.UnaryOp) and isinstance(t.slice.op, ast.USub) and isinstance(t.slice.operand, ast.Constant) and t.slice.operand.value == 1)
+            or (isinstance(t.slice, ast.Constant) and t.slice.value == -1)
+        )
+
+    # -- list mode: the statements after the scan (flush of the pending flag, assembly of the regex from the parts)
+    def _assemble(self, flags: dict[str, bool], flat: list) -> tuple[list, list]:
+        """(final regex fragments, the parts after the flush) for the scan output ``flat`` (fragments with SEP markers)."""
+        parts: list[list] = [[]]
+        for f in flat:
+            if f == ("SEP",):
+                parts.append([])
+            else:
+                parts[-1].append(f)
+        env: dict[str, object] = {}
+        flushed: list | None = None
+
+        def const_int(e):
+            if isinstance(e, ast.Constant) and type(e.value) is int:
+                return e.value
+            if isinstance(e, ast.UnaryOp) and isinstance(e.op, ast.USub) and isinstance(e.operand, ast.Constant) and type(e.operand.value) is int:
+                return -e.operand.value
+            return None
+
+        def ev(e):
+            if isinstance(e, ast.Subscript) and isinstance(e.value, ast.Name) and e.value.id == self.acc:
+                if isinstance(e.slice, ast.Slice):
+                    lo = None if e.slice.lower is None else const_int(e.slice.lower)
+                    hi = None if e.slice.upper is None else const_int(e.slice.upper)
+                    if e.slice.step is not None or (e.slice.lower is not None and lo is None) or (e.slice.upper is not None and hi is None):
+                        raise Unsupported(f"slice `{short(e, 30)}` of the parts")
+                    return ("PARTS", [list(p_) for p_ in parts[lo:hi]])
+                i = const_int(e.slice)
+                if i is None or not (-len(parts) <= i < len(parts)):
+                    raise Unsupported(f"index `{short(e, 30)}` into the parts")
+                return list(parts[i])
+            if isinstance(e, ast.Name) and e.id in env:
+                v = env[e.id]
+                return list(v) if isinstance(v, list) else v
+            if isinstance(e, ast.Name) and e.id == self.acc:
+                return ("PARTS", [list(p_) for p_ in parts])
+            if isinstance(e, ast.BinOp) and isinstance(e.op, ast.Add):
+                a, b = ev(e.left), ev(e.right)
+                if isinstance(a, list) and isinstance(b, list):
+                    return a + b
+                raise Unsupported(f"`{short(e, 40)}` in the regex assembly")
+            if isinstance(e, ast.JoinedStr):
+                return self._template(e, env, ev)
+            if isinstance(e, ast.Constant) and isinstance(e.value, str):
+                return classify_regex_text(e.value) if e.value else []
+            if isinstance(e, ast.Call) and self.mod.resolve(dotted(e.func) or "") == "re.escape":
+                return self._frags(e, None)
+            raise Unsupported(f"expression `{short(e, 40)}` in the regex assembly of {self.fi.qualname}")
+
+        def test(t):
+            try:
+                return self._ev(t, flags, None)
+            except Unsupported:
+                pass
+            if isinstance(t, ast.Compare) and len(t.ops) == 1 and isinstance(t.left, ast.Call) and isinstance(t.left.func, ast.Name) and t.left.func.id == "len" and len(t.left.args) == 1 and isinstance(t.left.args[0], ast.Name) and t.left.args[0].id == self.acc and const_int(t.comparators[0]) is not None:
+                a, b = len(parts), const_int(t.comparators[0])
+                for cls_, fn in ((ast.Gt, a > b), (ast.GtE, a >= b), (ast.Lt, a < b), (ast.LtE, a <= b), (ast.Eq, a == b), (ast.NotEq, a != b)):
+                    if isinstance(t.ops[0], cls_):
+                        return fn
+            raise Unsupported(f"test `{short(t, 40)}` in the regex assembly of {self.fi.qualname}")
+
+        def run(stmts):
+            nonlocal flushed
+            for st in stmts:
+                if isinstance(st, ast.Pass) or (isinstance(st, ast.Expr) and isinstance(st.value, ast.Constant)):
+                    continue
+                if isinstance(st, ast.If):
+                    run(st.body if test(st.test) else st.orelse)
+                elif isinstance(st, ast.AugAssign) and isinstance(st.op, ast.Add) and self._is_last_part(st.target):
+                    if flushed is not None:
+                        raise Unsupported("a part is extended after the assembly has started")
+                    parts[-1] += self._frags(st.value, None)
+                elif isinstance(st, ast.AugAssign) and isinstance(st.op, ast.Add) and isinstance(st.target, ast.Name) and st.target.id in env and isinstance(env[st.target.id], list):
+                    v = ev(st.value)
+                    if not isinstance(v, list):
+                        raise Unsupported(f"`{short(st, 50)}` in the regex assembly")
+                    env[st.target.id] = env[st.target.id] + v
+                elif isinstance(st, ast.Assign) and len(st.targets) == 1 and isinstance(st.targets[0], ast.Name) and st.targets[0].id != self.acc and st.targets[0].id not in flags:
+                    if flushed is None:
+                        flushed = [list(p_) for p_ in parts]
+                    env[st.targets[0].id] = ev(st.value)
+                elif isinstance(st, ast.For) and not st.orelse:
+                    if flushed is None:
+                        flushed = [list(p_) for p_ in parts]
+                    it = st.iter
+                    enum = isinstance(it, ast.Call) and isinstance(it.func, ast.Name) and it.func.id == "enumerate" and len(it.args) == 1 and not it.keywords
+                    seqv = ev(it.args[0] if enum else it)
+                    if not (isinstance(seqv, tuple) and seqv[0] == "PARTS"):
+                        raise Unsupported(f"assembly loop over `{short(st.iter, 40)}`")
+                    for i, part in enumerate(seqv[1]):
+                        if enum:
+                            if not (isinstance(st.target, ast.Tuple) and len(st.target.elts) == 2 and all(isinstance(x, ast.Name) for x in st.target.elts)):
+                                raise Unsupported("enumerate loop target")
+                            env[st.target.elts[0].id] = i
+                            env[st.target.elts[1].id] = part
+                        elif isinstance(st.target, ast.Name):
+                            env[st.target.id] = part
+                        else:
+                            raise Unsupported("assembly loop target")
+                        run(st.body)
+                else:
+                    raise Unsupported(f"statement `{short(st, 60)}` in the regex assembly of {self.fi.qualname}")
+
+        run(self.post)
+        v = self.ret.value
+        if not (isinstance(v, ast.Call) and self.mod.resolve(dotted(v.func) or "") == "re.compile" and v.args):
+            raise Unsupported(f"{self.fi.qualname} does not return re.compile(...)")
+        final = ev(v.args[0])
+        if not isinstance(final, list):
+            raise Unsupported(f"{self.fi.qualname}: re.compile argument not understood")
+        return _check_atomic(final), (flushed if flushed is not None else parts)
+
+    def _template(self, e: ast.JoinedStr, env: dict, ev=None) -> list:
+        """An f-string of regex text with parts / integers interpolated -> fragments."""
+        text = ""
+        sent: dict[str, list] = {}
+        for v in e.values:
+            if isinstance(v, ast.Constant):
+                text += v.value
+            elif isinstance(v, ast.FormattedValue) and v.conversion == -1 and v.format_spec is None and ((isinstance(v.value, ast.Name) and v.value.id in env) or ev is not None):
+                val = env[v.value.id] if isinstance(v.value, ast.Name) and v.value.id in env else ev(v.value)
+                if isinstance(val, int):
+                    text += str(val)
+                elif isinstance(val, list):
+                    ch = chr(0xE000 + len(sent))
+                    sent[ch] = val
+                    text += ch
+                else:
+                    raise Unsupported("interpolated value in the regex template")
+            else:
+                raise Unsupported(f"interpolation `{short(v, 30)}` in the regex template")
+        try:
+            tree = sre_parse.parse(text)
+        except Exception as ex:
+            raise Unsupported(f"regex template {short(e, 50)} does not parse: {ex}") from None
+        return _tree_frags(list(tree), sent, short(e, 50))
 
     def _build(self) -> None:
         init = tuple(sorted(self.flags0.items()))
@@ -476,6 +646,14 @@ class Transducer:
                 if nxt not in seen:
                     seen.add(nxt)
                     work.append(nxt)
+        self.init = init
+        self.states = seen
+        self.seen_anys: list = []
+        if self.acc_list:
+            self.prefix, self.end_anchor = [], None
+            for s in seen:
+                self.end[s] = []
+            return
         v = self.ret.value
         if not (isinstance(v, ast.Call) and v.args):
             raise Unsupported(f"{self.fi.qualname} does not return re.compile(<accumulator>)")
@@ -490,8 +668,40 @@ class Transducer:
         self.init = init
         self.states = seen
 
+    def whole(self, seq) -> tuple[list, list]:
+        """(the complete translation of the abstract pattern, the same before the assembly step) as fragment lists."""
+        if not self.acc_list:
+            steps, end = self.output(seq)
+            w = [f for st in steps for f in st] + end
+            return w, w
+        s = self.init
+        flat: list = []
+        for c in seq:
+            out, s = self.table[(s, c)]
+            flat += out
+        final, parts = self._assemble(dict(s), flat)
+        self.seen_anys += [f for f in final if f[0] == "ANY"]
+        naive: list = []
+        for i, p_ in enumerate(parts):
+            if i:
+                naive.append(("ANY", 0, "inf", True))
+            naive += p_
+        return final, naive
+
     def output(self, seq) -> tuple[list, list]:
         """(fragments per step, end fragments) for a sequence of character classes."""
+        if self.acc_list:
+            s = self.init
+            steps = []
+            flat: list = []
+            for c in seq:
+                out, s = self.table[(s, c)]
+                flat += out
+                steps.append([("ANY", 0, "inf", True) if f == ("SEP",) else f for f in out])
+            _final, parts = self._assemble(dict(s), flat)
+            before = sum(len(x) for x in steps) - sum(1 for x in steps for f in x if f[0] == "ANY")
+            tail = [f for p_ in parts for f in p_][before:]  # what the flush added to the last part
+            return steps, tail
         s = self.init
         steps = []
         for c in seq:
@@ -508,7 +718,8 @@ class Transducer:
         v = self.ret.value
         if not (isinstance(v, ast.Call) and self.mod.resolve(dotted(v.func) or "") == "re.compile" and v.args):
             raise Unsupported(f"{self.fi.qualname} does not return re.compile(<accumulator>)")
-        self._wrap(v.args[0])
+        if not self.acc_list:
+            self._wrap(v.args[0])
         return v
 
     def _wrap(self, e: ast.expr) -> tuple[list, list]:
@@ -592,6 +803,61 @@ def _classify_item(op, av, text, dotall) -> tuple:
     if name == "SUBPATTERN" and av[0] is None and len(av[3]) == 1 and not av[2] and not (av[1] & ~sre_constants.SRE_FLAG_DOTALL):
         return _classify_item(av[3][0][0], av[3][0][1], text, bool(av[1] & sre_constants.SRE_FLAG_DOTALL))
     raise Unsupported(f"regex fragment {text!r} contains {name}, which is neither a literal nor a repetition of ANY")
+
+
+def _tree_frags(items: list, sent: dict[str, list], what: str) -> list:
+    """Parsed regex items -> fragments; `(?=(?P<g>.*?X))(?P=g)` (a lookahead whose group is matched again by a backreference,
+    i.e. an atomic "up to the first occurrence of X") becomes an atomic ANY* followed by X."""
+    out: list = []
+    i = 0
+    while i < len(items):
+        op, av = items[i]
+        name = str(op)
+        if name == "LITERAL":
+            out += list(sent[chr(av)]) if chr(av) in sent else [("LIT", chr(av))]
+        elif name in ("MAX_REPEAT", "MIN_REPEAT") and len(av[2]) == 1 and str(av[2][0][0]) == "ANY":
+            out.append(("ANY", av[0], "inf" if av[1] == sre_constants.MAXREPEAT else av[1], False, "lazy" if name == "MIN_REPEAT" else "greedy"))
+        elif name == "ASSERT" and av[0] == 1 and i + 1 < len(items) and str(items[i + 1][0]) == "GROUPREF":
+            sub = list(av[1])
+            if not (len(sub) == 1 and str(sub[0][0]) == "SUBPATTERN" and sub[0][1][0] == items[i + 1][1] and not sub[0][1][1] and not sub[0][1][2]):
+                raise Unsupported(f"regex template {what}: lookahead + backreference not in the atomic-group shape")
+            inner = _tree_frags(list(sub[0][1][3]), sent, what)
+            if not (inner and inner[0][0] == "ANY" and inner[0][1:3] == (0, "inf") and all(f[0] in ("LIT", "RAW") for f in inner[1:])):
+                raise Unsupported(f"regex template {what}: atomic group does not contain `.*?<literal part>`")
+            out.append(("ANY", 0, "inf", False, "atomic-first" if inner[0][4] == "lazy" else "atomic-last"))
+            out += inner[1:]
+            i += 1
+        elif name == "AT":
+            sym = {"AT_END": "$", "AT_END_STRING": "\\Z", "AT_BEGINNING": "^", "AT_BEGINNING_STRING": "\\A"}.get(str(av))
+            if sym is None:
+                raise Unsupported(f"regex template {what}: {av}")
+            out.append(("ANCHOR", sym))
+        else:
+            raise Unsupported(f"regex template {what} contains {name}, which is not modelled")
+        i += 1
+    return out
+
+
+def _check_atomic(fr: list) -> list:
+    """An atomic "up to the FIRST occurrence of the literal part" wildcard equals ANY* + part exactly when whatever follows
+    can still absorb characters (another such wildcard or a plain ANY*): then committing to the earliest occurrence loses
+    no match. Anything else (last occurrence, nothing elastic behind it) is kept as a fragment of its own, i.e. a mismatch."""
+    out = []
+    for j, f in enumerate(fr):
+        if f[0] == "ANY" and len(f) > 4 and str(f[4]).startswith("atomic"):
+            k = j + 1
+            while k < len(fr) and fr[k][0] in ("LIT", "RAW"):
+                k += 1
+            elastic = k < len(fr) and fr[k][0] == "ANY" and fr[k][1:3] == (0, "inf")
+            if f[4] == "atomic-first" and elastic:
+                out.append(f)
+            elif f[4] == "atomic-last":
+                out.append(("ATOMIC", "up to the LAST occurrence of the following part"))
+            else:
+                out.append(("ATOMIC", "up to the first occurrence of the following part, with nothing elastic behind it"))
+        else:
+            out.append(f)
+    return out
 
 
 def _regex_literals(pattern: str) -> set[str]:
@@ -709,6 +975,8 @@ def _show(fr: list) -> str:
             out.append(f"UNESCAPED({f[1]})")
         elif f[0] == "ANCHOR":
             out.append(f"ANCHOR({f[1]})")
+        elif f[0] == "ATOMIC":
+            out.append(f"ATOMIC-WILDCARD({f[1]})")
         else:
             out.append("ANY*" if (f[1], f[2]) == (0, "inf") else f"ANY{{{f[1]},{f[2]}}}")
     return " ".join(out)
@@ -736,6 +1004,8 @@ def r1_transducer(corpus: Corpus, rep: Report, tier: str):
     bad: dict[str, tuple] = {}
     n_seq = 0
     RW_KEY = f"{fi.fq}|the pattern is rewritten before it is translated"
+    ASM_KEY = f"{fi.fq}|the regex assembled from the literal parts is part ANY* part ... ANY* part"
+    backtracking = None
     lossy = [rw for rw in tx.rewrites if rw[0] == "lossy"]
     for n in range(0, L + 1):
         for seq in itertools.product(tx.classes, repeat=n):
@@ -743,11 +1013,9 @@ def r1_transducer(corpus: Corpus, rep: Report, tier: str):
             ssteps, send, sfinal = spec_output(seq)
             sfl = [f for s in ssteps for f in s]
             if tx.rewrites and not lossy:
-                rsteps, rend = tx.output(tx.rewrite(seq))
-                rfl = _strip([f for s in rsteps for f in s]) + _strip(rend)
+                rfl = _strip(tx.whole(tx.rewrite(seq))[0])
                 if _merge_any(rfl) != _merge_any(sfl + send):
-                    psteps, pend = tx.output(seq)
-                    plain = _strip([f for s in psteps for f in s]) + _strip(pend)
+                    plain = _strip(tx.whole(seq)[0])
                     if _merge_any(plain) == _merge_any(sfl + send):
                         # the character scan alone is right for this pattern: the rewrite in front of it breaks it
                         if RW_KEY not in bad:
@@ -755,10 +1023,19 @@ def r1_transducer(corpus: Corpus, rep: Report, tier: str):
                         continue
                 else:
                     continue
+            w_full, w_naive = tx.whole(seq)
+            nbt = sum(1 for f in w_full if f[0] == "ANY" and f[2] == "inf" and not (len(f) > 4 and str(f[4]).startswith("atomic")))
+            if nbt > 1 and backtracking is None:
+                backtracking = (seq, w_full)
+            if _merge_any(_strip(w_full)) == _merge_any(sfl + send):
+                continue
+            if tx.acc_list and _merge_any(_strip(w_naive)) == _merge_any(sfl + send):
+                # the literal parts and their boundaries are right: the regex assembled from them is not
+                if ASM_KEY not in bad:
+                    bad[ASM_KEY] = (seq, _strip(w_full), sfl + send, ("ASSEMBLY",))
+                continue
             isteps, iend = tx.output(seq)
             ifl = _strip([f for s in isteps for f in s])
-            if _merge_any(ifl + _strip(iend)) == _merge_any(sfl + send):
-                continue
             states = _spec_states(seq)
             if ifl == sfl:
                 cell = ("END", sfinal)
@@ -790,6 +1067,22 @@ def r1_transducer(corpus: Corpus, rep: Report, tier: str):
             rep.violation("C19.R1", RW_KEY, tx.mod.site(node), f"`{short(node, 60)}` rewrites the raw pattern without regard to the backslash escape: pattern {pat!r} (c = any other character) reaches the character scan as {seen!r} and is translated to [{_show(got)}], the documented semantics require [{_show(want)}]")
         else:
             rep.ok("C19.R1", RW_KEY, site, f"{len(tx.rewrites)} rewrite(s) applied to every abstract pattern: translation unchanged up to ANY* ANY* = ANY*")
+    if tx.acc_list:
+        if ASM_KEY in bad:
+            seq, got, want, _ = bad.pop(ASM_KEY)
+            pat = "".join("c" if c == OTHER else c for c in seq)
+            rep.violation("C19.R1", ASM_KEY, tx.mod.site(tx.ret), f"pattern {pat!r} (c = any other character): the parts are collected correctly but the assembled regex is [{_show(got)}], the documented semantics require [{_show(want)}] "
+                          "(an atomic wildcard is only equivalent to ANY* when it stops at the FIRST occurrence of the next part and something elastic follows)")
+        else:
+            rep.ok("C19.R1", ASM_KEY, site, "atomic first-occurrence wildcards followed by one backtracking ANY*")
+    # termination side of "returns the entries": a failed fullmatch must not try every way of sharing the name among k wildcards
+    k = f"{fi.fq}|at most one backtracking wildcard per translated pattern"
+    if backtracking is None:
+        rep.ok("C19.R1", k, site)
+    else:
+        pat = "".join("c" if c == OTHER else c for c in backtracking[0])
+        rep.violation("C19.R1", k, tx.mod.site(tx.ret), f"pattern {pat!r} is translated to [{_show(_strip(backtracking[1]))}]: every '*' becomes its own backtracking `.*`, so a non-matching name makes fullmatch try every way of "
+                      "distributing the name over them - match_with_wildcard('a' * 40, '*' * 20 + 'b') does not return in practical time")
     cells = [(s, c) for s in ("N", "P") for c in tx.classes] + [("END", "N"), ("END", "P")]
     for cell in cells:
         key = _cell_key(fi, cell)
@@ -812,7 +1105,7 @@ def r1_transducer(corpus: Corpus, rep: Report, tier: str):
     rep.note(f"C19.R1: {len(tx.states)} flag state(s) x {len(tx.classes)} character classes extracted; {n_seq} abstract patterns (length <= {L}) compared with the documented machine")
     # the ANY fragment must match every character (newline included)
     flags = tx.compile_flags()
-    anys = [f for (s, c), (out, _) in tx.table.items() for f in out if f[0] == "ANY"] + [f for out in tx.end.values() for f in out if f[0] == "ANY"]
+    anys = [f for (s, c), (out, _) in tx.table.items() for f in out if f[0] == "ANY"] + [f for out in tx.end.values() for f in out if f[0] == "ANY"] + list(tx.seen_anys)
     k = f"{fi.fq}|wildcard fragment matches every character"
     if not anys:
         rep.listed("C19.R1", k, site, "no ANY fragment emitted (reported by the table rows)")
@@ -999,6 +1292,7 @@ VAL_OF = {
     "native": {"INVS": "INVDATA", "OBJECTS": "DOMMAP", "DOMMAP": "OTMAP", "OTMAP": "ITEM"},
     "sphinx": {"INVS": "SINV", "SINV": "OTMAP", "OTMAP": "ITEMTUP"},
 }
+SPHINX_ITEM_ATTRS = ["project_name", "project_version", "uri", "display_name"]  # sphinx.util.inventory._InventoryItem, in tuple order
 TUPLE_KINDS = ["PROJECT", "VERSION", "LOC", "TEXT"]  # Sphinx inventory item: (project, version, uri, dispname)
 FILTER_ROLE = {"invs": "INV", "domains": "DOMAIN", "otypes": "OTYPE", "targets": "NAME", "target": "NAME"}
 COORD_FIELDS = {"inv": "INV", "domain": "DOMAIN", "otype": "OTYPE", "name": "NAME"}
@@ -1028,7 +1322,10 @@ class Kinds:
         self.loops: list[ast.For] = []
         self.filters = [p for p in fi.params[1:] if p in FILTER_ROLE]
         self.restricted: dict[ast.For, list[tuple[ast.expr, list]]] = {}
-        self.subs: list["Kinds"] = []  # generator helpers of the same module this function iterates  # loop -> alternatives of its iterable that are built from a filter
+        self.subs: list["Kinds"] = []  # generator helpers of the same module this function iterates
+        self.keyviews: dict[str, tuple[str, ast.AST]] = {}  # local list of a mapping's keys (possibly minus the keys without ':')
+        self.domlists: dict[str, tuple[str, str]] = {}  # local list of the domains of a key view: name -> (key view, where the key is cut)
+        self.understood_comps: set[int] = set()  # loop -> alternatives of its iterable that are built from a filter
         if not fi.params:
             raise Unsupported(f"{fi.qualname} has no parameter")
         self.kinds[fi.params[0]] = root_kind
@@ -1040,7 +1337,7 @@ class Kinds:
                 self._assign(n)
         for n in fi.local_nodes():
             # a comprehension over inventory data would need role inference of its own; one over e.g. the filters does not
-            if isinstance(n, ast.comprehension) and any(isinstance(x, ast.Name) and x.id in self.kinds for x in ast.walk(n.iter)):
+            if isinstance(n, ast.comprehension) and id(n) not in self.understood_comps and any(isinstance(x, ast.Name) and x.id in self.kinds for x in ast.walk(n.iter)):
                 raise Unsupported(f"comprehension over inventory data in {fi.qualname}: roles of its variables are not inferred")
 
     def kind_of(self, e: ast.expr) -> str | None:
@@ -1049,12 +1346,35 @@ class Kinds:
         if isinstance(e, ast.Subscript) and isinstance(e.value, ast.Name) and isinstance(e.slice, ast.Constant):
             if self.rk == "native" and self.kinds.get(e.value.id) == "INVDATA" and e.slice.value == "objects":
                 return "OBJECTS"
+        if self.rk == "sphinx" and self._item_fields_helper(e):
+            return "ITEMTUP"
         if isinstance(e, ast.Subscript) and not isinstance(e.slice, ast.Slice):
             # mapping[key] -> the value role of that mapping level (whatever the key expression is)
             mk = self.kind_of(e.value)
             if mk in VAL_OF[self.rk] and mk != "INVS":
                 return VAL_OF[self.rk][mk]
         return None
+
+    def _item_fields_helper(self, e: ast.expr) -> bool:
+        """`helper(item)` of this module that returns the item's (project, version, uri, display name) - the item itself
+        for the tuple form, the four attributes in tuple order for the item class of Sphinx >= 8.2."""
+        if not (isinstance(e, ast.Call) and isinstance(e.func, ast.Name) and len(e.args) == 1 and not e.keywords and self.kind_of(e.args[0]) == "ITEMTUP"):
+            return False
+        h = self.fi.module.functions.get(e.func.id)
+        if h is None or h.is_lambda or len(h.params) != 1:
+            return False
+        prm = h.params[0]
+        rets = [r for r in h.local_nodes() if isinstance(r, ast.Return)]
+        if not rets:
+            return False
+        for r in rets:
+            v = r.value
+            if isinstance(v, ast.Name) and v.id == prm:
+                continue
+            if isinstance(v, ast.Tuple) and [unparse(x) for x in v.elts] == [f"{prm}.{a}" for a in SPHINX_ITEM_ATTRS]:
+                continue
+            return False
+        return True
 
     def _iter_leaves(self, e: ast.expr, conds: list | None = None, depth: int = 0) -> list[tuple[ast.expr, list]]:
         """Alternatives the iterated object can be, each with the (test, polarity) facts under which it is chosen:
@@ -1174,6 +1494,29 @@ class Kinds:
             self._bind(dom, "DOMAIN", n)
             self._bind(typ, "OTYPE", n)
             return
+        if isinstance(v, ast.ListComp) and len(v.generators) == 1 and isinstance(t, ast.Name) and isinstance(v.generators[0].target, ast.Name):
+            gen = v.generators[0]
+            var = gen.target.id
+            it = gen.iter
+            if isinstance(it, ast.Call) and isinstance(it.func, ast.Attribute) and it.func.attr == "keys" and not it.args:
+                it = it.func.value
+            mk = self.kind_of(it)
+            # [key for key in mapping if ":" in key]: the mapping's keys, in its order, minus the keys that are not domain:type
+            if mk in KEY_OF[self.rk] and isinstance(v.elt, ast.Name) and v.elt.id == var and all(
+                isinstance(c, ast.Compare) and len(c.ops) == 1 and isinstance(c.ops[0], ast.In) and isinstance(c.left, ast.Constant) and c.left.value == ":" and isinstance(c.comparators[0], ast.Name) and c.comparators[0].id == var and KEY_OF[self.rk][mk] == "DOMOTYPE"
+                for c in gen.ifs
+            ):
+                self.understood_comps.add(id(gen))
+                self.keyviews[t.id] = (mk, n)
+                self._bind(t, mk, n)
+                return
+            # [key.split(":", 1)[0] for key in keys]: the domain of every key of a key view
+            if isinstance(it, ast.Name) and it.id in self.keyviews and not gen.ifs:
+                dom = _domain_of(v.elt, var)
+                if dom is not None:
+                    self.understood_comps.add(id(gen))
+                    self.domlists[t.id] = (it.id, dom)
+                    return
         k = self.kind_of(v)
         if k == "ITEMTUP":
             self._bind(t, "ITEMTUP" if isinstance(t, (ast.Tuple, ast.List)) else k, n)
@@ -1202,6 +1545,37 @@ class Kinds:
 
 
 _WHERE = {"first": "the first colon", "last": "the last colon", "every": "every colon"}
+
+
+def _domain_of(e: ast.expr, var: str) -> str | None:
+    """'first' / 'last' when ``e`` is the domain part of the `domain:type` key ``var``: `var.split(":", 1)[0]`, `var.partition(":")[0]`."""
+    if isinstance(e, ast.Subscript) and isinstance(e.slice, ast.Constant) and e.slice.value == 0 and isinstance(e.value, ast.Call) and isinstance(e.value.func, ast.Attribute) and isinstance(e.value.func.value, ast.Name) and e.value.func.value.id == var:
+        canon = _split_canon(e.value) if e.value.func.attr in ("split", "rsplit", "partition", "rpartition") else None
+        return canon if canon in ("first", "last") else None
+    return None
+
+
+def _key_order(kd: "Kinds", loop: ast.For):
+    """How a loop over the flat `domain:type` keys orders them: ("grouped", node) - stable sort by the first occurrence of
+    the key's domain, i.e. the order in which the native nesting lists them -, ("flat", None), ("other", node)."""
+    base = loop.iter
+    if isinstance(base, ast.Call) and isinstance(base.func, ast.Attribute) and base.func.attr in ("items", "keys", "values") and not base.args:
+        base = base.func.value
+    if not (isinstance(base, ast.Name) and base.id in kd.keyviews):
+        return "flat", None
+    name = base.id
+    sorts = [c for c in kd.fi.local_nodes() if isinstance(c, ast.Call) and isinstance(c.func, ast.Attribute) and isinstance(c.func.value, ast.Name) and c.func.value.id == name and c.func.attr in ("sort", "reverse")]
+    if not sorts:
+        return "flat", None
+    if len(sorts) > 1 or sorts[0].func.attr != "sort" or sorts[0].args or [k.arg for k in sorts[0].keywords] != ["key"]:
+        return "other", sorts[0]
+    lam = sorts[0].keywords[0].value
+    if isinstance(lam, ast.Lambda) and len(lam.args.args) == 1 and isinstance(lam.body, ast.Call) and isinstance(lam.body.func, ast.Attribute) and lam.body.func.attr == "index" and isinstance(lam.body.func.value, ast.Name) and len(lam.body.args) == 1:
+        dl = kd.domlists.get(lam.body.func.value.id)
+        dom = _domain_of(lam.body.args[0], lam.args.args[0].arg)
+        if dl is not None and dl[0] == name and dom is not None and dom == dl[1]:
+            return ("grouped", sorts[0]) if dom == "first" else ("other", sorts[0])
+    return "other", sorts[0]
 
 
 def _inline_pure_calls(e: ast.expr, mod, depth: int = 0) -> ast.expr:
@@ -1478,6 +1852,18 @@ def r3_pairing(corpus: Corpus, rep: Report, tier: str):
                     rep.violation("C19.R3", k, fx.module.site(loop), f"the loop iterates `{short(loop.iter, 50)}`: `{br[0]}` replaces the mapping's own (inventory) order")
                 else:
                     rep.ok("C19.R3", k, fx.module.site(loop))
+                if rk == "sphinx" and loop._c19_kind == "SINV":
+                    # the native format nests the types under their domain (first occurrence), the Sphinx format is flat:
+                    # the flat keys must be walked grouped by domain or the two representations yield in different orders
+                    k = f"{fx.fq}|domain:type keys are walked grouped by domain, in the order of the native nesting"
+                    how, node = _key_order(kx, loop)
+                    if how == "grouped":
+                        rep.ok("C19.R3", k, fx.module.site(node))
+                    elif how == "flat":
+                        rep.violation("C19.R3", k, fx.module.site(loop), f"the loop walks the flat `domain:type` keys in their own order (`{short(loop.iter, 40)}`), while from_sphinx / load nest every type under the first occurrence of its domain: "
+                                      "for keys listed as std:label, py:class, std:doc the native form yields std:label, std:doc, py:class - matches come in a different order and an ambiguous inv: link resolves to a different first match under Sphinx than under docutils")
+                    else:
+                        rep.violation("C19.R3", k, fx.module.site(node), f"`{short(node, 60)}` re-orders the `domain:type` keys, but not into the order of the native nesting (stable sort by the first occurrence of the key's domain, the key cut at the first ':')")
             # (e) every loop visits every entry of its level; the filter restricts the result only through match_with_wildcard
             aware = _wildcard_aware(fx, kx.filters)
             for loop in kx.loops:
@@ -1729,17 +2115,83 @@ def _helper_component(e: ast.expr, fi: FunctionInfo, ctx):
     return None
 
 
-def _is_path_split(e: ast.expr, fi: FunctionInfo) -> bool:
-    """`<urlparse result>.path.split(":")` (possibly inside list()/tuple())."""
+def _single_def(e: ast.expr, fi: FunctionInfo) -> ast.expr:
+    """A local name replaced by its only definition (tuple unpacking resolved element-wise)."""
+    for _ in range(4):
+        if isinstance(e, ast.Name) and e.id not in fi.params:
+            try:
+                d = _defs_of(fi, e.id)
+            except Unsupported:
+                return e
+            if len(d) != 1:
+                return e
+            e = d[0]
+        else:
+            break
+    return e
+
+
+def _partition_elem(e: ast.expr, fi: FunctionInfo, sep: str):
+    """(receiver, index) when ``e`` is element ``index`` of `<receiver>.partition(sep)` (directly or through a local)."""
+    e = _single_def(e, fi)
+    if isinstance(e, ast.Subscript) and isinstance(e.slice, ast.Constant) and type(e.slice.value) is int:
+        c = _single_def(e.value, fi)
+        if isinstance(c, ast.Call) and isinstance(c.func, ast.Attribute) and c.func.attr == "partition" and len(c.args) == 1 and not c.keywords and isinstance(c.args[0], ast.Constant) and c.args[0].value == sep:
+            return c.func.value, e.slice.value
+    return None
+
+
+def _path_string(e: ast.expr, fi: FunctionInfo):
+    """How the `<invs>:<domains>:<otypes>` part of the href is obtained: ("literal", href expr) for
+    `href.partition(":")[2].partition("#")[0]`, ("urlparse", argument) for `urlparse(href).path`; None if not recognised."""
+    x = _single_def(e, fi)
+    if isinstance(x, ast.Attribute) and x.attr == "path" and _urlparse_var(x.value, fi):
+        call = _single_def(x.value, fi)
+        return "urlparse", (call.args[0] if isinstance(call, ast.Call) and call.args else None)
+    pe = _partition_elem(e, fi, "#")
+    if pe is not None and pe[1] == 0:
+        rest = _partition_elem(pe[0], fi, ":")
+        if rest is not None and rest[1] == 2:
+            return "literal", rest[0]
+    return None
+
+
+def _target_string(e: ast.expr, fi: FunctionInfo):
+    """Like _path_string for the `#<target>` part."""
+    x = _single_def(e, fi)
+    if isinstance(x, ast.Attribute) and x.attr == "fragment" and _urlparse_var(x.value, fi):
+        call = _single_def(x.value, fi)
+        return "urlparse", (call.args[0] if isinstance(call, ast.Call) and call.args else None)
+    pe = _partition_elem(e, fi, "#")
+    if pe is not None and pe[1] == 2:
+        rest = _partition_elem(pe[0], fi, ":")
+        if rest is not None and rest[1] == 2:
+            return "literal", rest[0]
+    return None
+
+
+def _parts_split(e: ast.expr, fi: FunctionInfo):
+    """(split call, path expression, "every" | "remainder") when ``e`` is `<path string>.split(":")` / `.split(":", 2)`
+    (possibly inside list()/tuple()): the list of the href's path parts."""
     while isinstance(e, ast.Call) and isinstance(e.func, ast.Name) and e.func.id in ("list", "tuple") and len(e.args) == 1 and not e.keywords:
         e = e.args[0]
-    if isinstance(e, ast.Call) and isinstance(e.func, ast.Attribute) and e.func.attr == "split" and len(e.args) == 1 and not e.keywords and isinstance(e.args[0], ast.Constant) and e.args[0].value == ":":
-        src = e.func.value
-        return isinstance(src, ast.Attribute) and src.attr == "path" and _urlparse_var(src.value, fi)
-    return False
+    if isinstance(e, ast.Call) and isinstance(e.func, ast.Attribute) and e.func.attr == "split" and not e.keywords and e.args and isinstance(e.args[0], ast.Constant) and e.args[0].value == ":":
+        if _path_string(e.func.value, fi) is None:
+            return None
+        if len(e.args) == 1:
+            return e, e.func.value, "every"
+        if len(e.args) == 2 and isinstance(e.args[1], ast.Constant) and e.args[1].value == 2:
+            return e, e.func.value, "remainder"
+    return None
+
+
+def _is_path_split(e: ast.expr, fi: FunctionInfo) -> bool:
+    return _parts_split(e, fi) is not None
 
 
 def _urlparse_var(e: ast.expr, fi: FunctionInfo) -> bool:
+    if isinstance(e, ast.Call):
+        return fi.module.resolve(dotted(e.func) or "") in ("urllib.parse.urlparse", "urllib.parse.urlsplit")
     if isinstance(e, ast.Name):
         d = _defs_of(fi, e.id)
         return len(d) == 1 and isinstance(d[0], ast.Call) and fi.module.resolve(dotted(d[0].func) or "") in ("urllib.parse.urlparse", "urllib.parse.urlsplit")
@@ -1769,6 +2221,8 @@ def _value_role(e: ast.expr, fi: FunctionInfo, ctx=None, depth: int = 0) -> str 
         if e.attr == "fragment" and _urlparse_var(e.value, fi):
             return "NAME"
         return None
+    if _target_string(e, fi) is not None:
+        return "NAME"
     if isinstance(e, ast.Name):
         if e.id in fi.params:
             if _defs_of(fi, e.id):
@@ -1782,11 +2236,9 @@ def _value_role(e: ast.expr, fi: FunctionInfo, ctx=None, depth: int = 0) -> str 
                 pd = _defs_of(fi, d.value.id) if isinstance(d.value, ast.Name) else [d.value]
                 while len(pd) == 1 and isinstance(pd[0], ast.Call) and isinstance(pd[0].func, ast.Name) and pd[0].func.id in ("list", "tuple") and len(pd[0].args) == 1 and not pd[0].keywords:
                     pd = [pd[0].args[0]]
-                if len(pd) == 1 and isinstance(pd[0], ast.Call) and isinstance(pd[0].func, ast.Attribute) and pd[0].func.attr == "split" and len(pd[0].args) == 1 and isinstance(pd[0].args[0], ast.Constant) and pd[0].args[0].value == ":":
-                    src = pd[0].func.value
-                    if isinstance(src, ast.Attribute) and src.attr == "path" and _urlparse_var(src.value, fi):
-                        roles.add(HREF_INDEX_ROLE.get(d.slice.value, f"PATH[{d.slice.value}]"))
-                        continue
+                if len(pd) == 1 and _parts_split(pd[0], fi) is not None:
+                    roles.add(HREF_INDEX_ROLE.get(d.slice.value, f"PATH[{d.slice.value}]"))
+                    continue
                 return None
             r = _value_role(d, fi, ctx, depth)
             if r is None:
@@ -2037,13 +2489,11 @@ class HrefParts:
                     d = _defs_of(fi, n.id)
                 except Unsupported:
                     continue
-                while len(d) == 1 and isinstance(d[0], ast.Call) and isinstance(d[0].func, ast.Name) and d[0].func.id in ("list", "tuple") and len(d[0].args) == 1:
-                    d = [d[0].args[0]]
-                if len(d) == 1 and isinstance(d[0], ast.Call) and isinstance(d[0].func, ast.Attribute) and d[0].func.attr == "split" and len(d[0].args) == 1 and isinstance(d[0].args[0], ast.Constant) and d[0].args[0].value == ":":
-                    src = d[0].func.value
-                    if isinstance(src, ast.Attribute) and src.attr == "path" and _urlparse_var(src.value, fi):
-                        cands.append(n.id)
-                        self.path_text = unparse(src)
+                ps = _parts_split(d[0], fi) if len(d) == 1 else None
+                if ps is not None:
+                    cands.append(n.id)
+                    self.path_text = unparse(ps[1])
+                    self.split = ps
         if len(cands) > 1:
             raise Unsupported(f"{fi.qualname}: the list of href path parts was not identified ({cands})")
         self.P = cands[0] if cands else None
@@ -2051,7 +2501,8 @@ class HrefParts:
             inplace = [n for n in fi.local_nodes() if isinstance(n, ast.Call) and _is_path_split(n, fi) and not (isinstance(n.func, ast.Name))]
             if not inplace:
                 raise Unsupported(f"{fi.qualname}: the list of href path parts was not identified")
-            self.path_text = unparse(inplace[0].func.value)
+            self.split = _parts_split(inplace[0], fi)
+            self.path_text = unparse(self.split[1])
 
     def _is_parts(self, e: ast.expr) -> bool:
         if isinstance(e, ast.Name):
@@ -2280,6 +2731,7 @@ def _href_parts_check(corpus: Corpus, rep: Report) -> None:
             return [c[sel] for sel in sels]
     else:
         raise Unsupported(f"{fi.qualname}: the three path filters come from different places")
+    _href_shape_check(rep, fi, where, hp, calls[0], (corpus, g))
     label = ("inventory", "domain", "object type")
     for p in (1, 2, 3):
         k = f"{fi.fq}|inv: path with {p} part(s): every given part reaches its filter"
@@ -2307,6 +2759,49 @@ def _href_parts_check(corpus: Corpus, rep: Report) -> None:
             rep.violation("C19.R4", k, where.module.site(node) if node is not None else fi.module.site(calls[0]), f"href `inv:{':'.join('abc'[:p])}#t`: " + "; ".join(problems) + " (an IndexError raised while evaluating a later part discards the bindings evaluated in the same statement / skips the following ones)")
         else:
             rep.ok("C19.R4", k, fi.module.site(calls[0]))
+
+
+def _href_shape_check(rep: Report, fi: FunctionInfo, where: FunctionInfo, hp: "HrefParts", lookup: ast.Call, ctx) -> None:
+    """How the destination `inv:<invs>:<domains>:<otypes>#<target>` is taken apart (in ``where``: the function itself or its helper)."""
+    split_call, path_expr, canon = hp.split
+    # (1) literally, not as a URL: urlparse splits `?query` / `;params` off the path, drops tab/CR/LF, may raise
+    k = f"{fi.fq}|the destination is split literally, not parsed as a URL"
+    how = _path_string(path_expr, where)
+    if how is None:
+        raise Unsupported(f"{where.qualname}: origin of the path string `{short(path_expr, 40)}` not understood")
+    if how[0] == "urlparse":
+        rep.violation("C19.R4", k, where.module.site(split_call), f"the path of the inv: link is taken from urlparse(): a `?` (or `;`) in the inventory, domain or type part starts a query that is then ignored, "
+                      "so `<inv:k:std?:x#index>` is filtered as `k:std` with the type dropped and an inventory keyed `what?` cannot be addressed")
+    else:
+        rep.ok("C19.R4", k, where.module.site(split_call))
+    # (2) the object type is the remainder of the path (types contain ':', e.g. rst:directive:option)
+    k = f"{fi.fq}|the object type is everything after the second ':' of the path"
+    if canon == "remainder":
+        rep.ok("C19.R4", k, where.module.site(split_call))
+    else:
+        rep.violation("C19.R4", k, where.module.site(split_call), f"`{short(split_call, 40)}` cuts the path at every ':' and only three parts are used: `<inv:k:rst:directive:option#t>` filters for type `directive` "
+                      "(the entry of type `directive:option` is not found) and `<inv:k:std:label:nonsense#t>` silently ignores `:nonsense`, while the inventory defines the type as everything after the first ':' of `domain:type`")
+    # (3) a literal '%' of the source must reach the filter: markdown-it leaves '%25' encoded in normalizeLinkText
+    k = f"{fi.fq}|a literal % of the destination reaches the filter"
+    root, f = how[1], where
+    if where.fq != fi.fq and isinstance(root, ast.Name) and root.id in where.params:
+        # the helper receives the destination: continue at the call site
+        hc = [c for c in fi.local_nodes() if isinstance(c, ast.Call) and _callee(c, fi, ctx[1]) is not None and _callee(c, fi, ctx[1]).fq == where.fq]
+        if len(hc) != 1 or root.id not in _arg_map(hc[0], where):
+            raise Unsupported(f"{fi.qualname}: the call that hands the destination to {where.qualname} was not found")
+        root, f = _arg_map(hc[0], where)[root.id], fi
+    if not isinstance(root, ast.Name):
+        raise Unsupported(f"{f.qualname}: the destination string `{short(root, 40) if root is not None else None}` is not a local")
+    defs = _defs_of(f, root.id)
+    normalised = [d for d in defs if any(isinstance(x, ast.Call) and (dotted(x.func) or "").endswith("normalizeLinkText") for x in ast.walk(d))]
+    decoded = [d for d in defs if any(isinstance(x, ast.Call) and isinstance(x.func, ast.Attribute) and x.func.attr == "replace" and len(x.args) == 2 and all(isinstance(a, ast.Constant) for a in x.args) and (x.args[0].value, x.args[1].value) == ("%25", "%") for x in ast.walk(d))]
+    if not normalised:
+        raise Unsupported(f"{f.qualname}: `{root.id}` does not come from normalizeLinkText; whether percent-escapes are undone is not modelled")
+    if decoded:
+        rep.ok("C19.R4", k, f.module.site(decoded[0]))
+    else:
+        rep.violation("C19.R4", k, f.module.site(normalised[0]), f"`{root.id}` is un-escaped with normalizeLinkText only, which deliberately leaves `%25` encoded, and markdown-it encodes a bare `%` of the source as `%25`: "
+                      "`<inv:#100%>` filters for the name `100%25` and never finds the entry `100%`")
 
 
 # ---- base URL of a registered inventory
@@ -2594,9 +3089,6 @@ def r4_link_paths(corpus: Corpus, rep: Report, tier: str):
             return out
 
         miss, amb = ev_calls(emits("IREF_MISSING"), "IREF_MISSING"), ev_calls(emits("IREF_AMBIGUOUS"), "IREF_AMBIGUOUS")
-        refs = ev_calls(builds_reference, "the reference node")
-        if not refs:
-            raise Unsupported(f"{fi.qualname}: no nodes.reference construction found")
 
         def weight_of(calls):
             stmts: dict[object, int] = {}
@@ -2612,6 +3104,38 @@ def r4_link_paths(corpus: Corpus, rep: Report, tier: str):
                 if _defs_of(fi, u.star):  # bound by the unpacking only
                     raise Unsupported(f"{fi.qualname}: {u.star} is assigned more than once")
                 lens[u.star] = u.fixed
+        # the reference of the link = the refuri store fed from the selected match (here, or in a helper that receives it);
+        # a fall-back reference to the raw destination (no match, explicit text) is not an inventory reference
+        sel_names = {u_name for u in unpacks for u_name in u.elems}
+        for n in fi.local_nodes():
+            if isinstance(n, ast.Assign) and len(n.targets) == 1 and isinstance(n.targets[0], ast.Name) and isinstance(n.value, ast.Subscript) and isinstance(n.value.value, ast.Name) and n.value.value.id in lens and not isinstance(n.value.slice, ast.Slice):
+                sel_names.add(n.targets[0].id)
+
+        def selected(e: ast.AST) -> bool:
+            for x in ast.walk(e):
+                if isinstance(x, ast.Name) and x.id in sel_names:
+                    return True
+                if isinstance(x, ast.Subscript) and isinstance(x.value, ast.Name) and x.value.id in lens and not isinstance(x.slice, ast.Slice):
+                    return True
+            return False
+
+        def refuri_values(f: FunctionInfo) -> list[ast.expr]:
+            out = []
+            for n in f.local_nodes():
+                if isinstance(n, ast.Assign) and len(n.targets) == 1 and isinstance(n.targets[0], ast.Subscript) and isinstance(n.targets[0].slice, ast.Constant) and n.targets[0].slice.value == "refuri":
+                    out.append(n.value)
+                if isinstance(n, ast.Call) and kwarg(n, "refuri") is not None:
+                    out.append(kwarg(n, "refuri"))
+            return out
+
+        refs = [v for v in refuri_values(fi) if selected(v)]
+        for c in fi.local_nodes():
+            if isinstance(c, ast.Call) and any(selected(a) for a in [*c.args, *[kw.value for kw in c.keywords]]):
+                tf = _callee(c, fi, g)
+                if tf is not None and tf.fq != fi.fq and refuri_values(tf):
+                    refs.append(c)
+        if not refs:
+            raise Unsupported(f"{fi.qualname}: no refuri store fed from the selected match was found")
         consts = [x.value + max(lens.values()) for t in fi.local_nodes() if isinstance(t, ast.Compare) and _mentions(t, lens) for x in ast.walk(t) if isinstance(x, ast.Constant) and type(x.value) is int]
         top = max([2, *consts, *[u.fixed for u in unpacks]]) + 1
         expect = {0: (1 if has_missing else 0, 0, 0), 1: (0, 0, 1)}
@@ -2722,7 +3246,7 @@ def r4_link_paths(corpus: Corpus, rep: Report, tier: str):
             return False
 
         k = f"{fi.fq}|refuri"
-        uris = uri_stores(fi)
+        uris = [v for v in uri_stores(fi) if selected(v)]
         if len(uris) == 1:
             if len(set(mvars)) != 1:
                 raise Unsupported(f"{fi.qualname}: the variable holding the selected match was not identified ({mvars})")
@@ -2817,7 +3341,22 @@ def mutants(corpus: Corpus):
     escs = sorted([n for n in walk_local(cr.node) if isinstance(n, ast.Call) and unparse(n.func) == "re.escape" and isinstance(n.args[0], ast.Name)], key=lambda n: n.lineno)
     add("c19-literal-not-escaped", "C19.R1", inv, escs[-1] if escs else None, "char", "other character", canary=not _has_end_flush(cr))
     anyc = find_node(cr, lambda n: isinstance(n, ast.Constant) and n.value == ".*")
-    add("c19-star-needs-one-char", "C19.R1", inv, anyc, '".+"', "next character '*'")
+    add("c19-star-needs-one-char", "C19.R1", inv, anyc, '".+"', "assembled from the literal parts" if any(isinstance(st, ast.For) for st in cr.node.body[cr.node.body.index(loop) + 1 :]) else "next character '*'")
+    # 3924e09 (one backtracking wildcard, the others atomic "first occurrence"): revert + the class
+    asm = [st for st in (cr.node.body[cr.node.body.index(loop) + 1 :] if loop is not None else []) if isinstance(st, ast.For)]
+    tpl = find_node(cr, lambda n: isinstance(n, ast.JoinedStr) and "?=" in unparse(n)) if asm else None
+    if tpl is not None:
+        pvars = [v.value.id for v in tpl.values if isinstance(v, ast.FormattedValue) and isinstance(v.value, ast.Name)]
+        pv_ = [x for x in pvars if x != "i"][-1] if pvars else "part"
+        add("c19-every-wildcard-backtracks", "C19.R1", inv, tpl, f'".*" + {pv_}', "at most one backtracking wildcard", canary=True)
+        seg = ast.get_source_segment(inv.src, tpl)
+        add("c19-atomic-wildcard-takes-last-occurrence", "C19.R1", inv, tpl, seg.replace(".*?", ".*", 1), "assembled from the literal parts")
+        lastw = find_node(cr, lambda n: isinstance(n, ast.If) and "len(" in unparse(n.test) and parent(n) is cr.node)
+        if lastw is not None and len(lastw.body) == 1 and isinstance(lastw.body[0], ast.AugAssign):
+            av = unparse(lastw.body[0].target)
+            add("c19-last-wildcard-atomic-too", "C19.R1", inv, lastw.body[0], f'{av} += f"(?=(?P<last>.*?{{{unparse(lastw.body[0].value.right)}}}))(?P=last)"' if isinstance(lastw.body[0].value, ast.BinOp) else "pass", "assembled from the literal parts")
+    else:
+        out.append(("c19-every-wildcard-backtracks", "the assembly with atomic wildcards (fix 3924e09) is not in this tree"))
     resets = sorted([n for n in walk_local(cr.node) if isinstance(n, ast.Assign) and isinstance(n.value, ast.Constant) and n.value.value is False and parent(n) is not cr.node], key=lambda n: n.lineno)
     add("c19-pending-not-reset-after-escaped-star", "C19.R1", inv, resets[0] if resets and isinstance(parent(resets[0]), ast.If) else None, "pass", "_create_regex")
     lit_bsl = find_node(cr, lambda n: isinstance(n, ast.If) and loop is not None and parent(n) is loop and len(n.body) == 1 and isinstance(n.body[0], ast.AugAssign) and "re.escape('\\\\')" in unparse(n.body[0]))
@@ -2831,7 +3370,7 @@ def mutants(corpus: Corpus):
         body = cr.node.body
         post = [st for st in body[body.index(loop) + 1 :] if isinstance(st, ast.If)]
         if post:
-            add("c19-f14-end-flush-reverted", "C19.R1", inv, post[0], "pass", "end of pattern, backslash pending", canary=True)
+            add("c19-f14-end-flush-reverted", "C19.R1", inv, post[0], "pass", "end of pattern, backslash pending")
         else:
             out.append(("c19-f14-end-flush-reverted", "F14 is not repaired on this tree: the end-of-pattern violation itself is live"))
     # class "the raw pattern is rewritten before the character scan"
@@ -2899,7 +3438,7 @@ def mutants(corpus: Corpus):
     if ld is not None and isinstance(ld.iter, ast.Call) and isinstance(ld.iter.func, ast.Attribute):
         mp = unparse(ld.iter.func.value)
         add("c19-native-domain-exact-hit-shortcut", "C19.R3", inv, ld.iter.func.value, f"({{domains: {mp}[domains]}} if domains in {mp} else {mp})", "OBJECTS visits every entry")
-    ls = find_node(fs, lambda n: isinstance(n, ast.For) and isinstance(n.target, ast.Name) and isinstance(n.iter, ast.Name))
+    ls = find_node(fs, lambda n: isinstance(n, ast.For) and isinstance(n.target, ast.Name) and isinstance(n.iter, ast.Name) and any(isinstance(b, ast.If) and "targets" in unparse(b.test) for b in n.body))
     if ls is not None:
         add("c19-sphinx-exact-hit-shortcut", "C19.R3", inv, ls.iter, f"([targets] if targets in {ls.iter.id} else {ls.iter.id})", "OTMAP visits every entry")
     ys = find_node(fn, lambda n: isinstance(n, ast.Expr) and isinstance(n.value, ast.Yield))
@@ -2914,7 +3453,16 @@ def mutants(corpus: Corpus):
     if ocs is not None:
         add("c19-sphinx-compiled-pattern-search", "C19.R3", inv, ocs, f"_create_regex('*' if otypes is None else otypes).search({unparse(ocs.args[0])})", "OTYPE is tested with a whole-string")
     # class "the domain:type key cut at another colon than from_sphinx / load cut it"
-    spf = find_node(fs, lambda n: isinstance(n, ast.Call) and isinstance(n.func, ast.Attribute) and n.func.attr == "split" and len(n.args) == 2)
+    spf = find_node(fs, lambda n: isinstance(n, ast.Call) and isinstance(n.func, ast.Attribute) and n.func.attr == "split" and len(n.args) == 2 and isinstance(parent(n), ast.Assign))
+    # a6d2b5d (flat keys grouped by domain, as the native nesting lists them): revert + the class
+    srt = find_node(fs, lambda n: isinstance(n, ast.Expr) and isinstance(n.value, ast.Call) and isinstance(n.value.func, ast.Attribute) and n.value.func.attr == "sort")
+    if srt is not None:
+        add("c19-sphinx-keys-not-grouped-by-domain", "C19.R3", inv, srt, "pass", "grouped by domain", canary=True)
+        add("c19-sphinx-keys-sorted-alphabetically", "C19.R3", inv, srt, f"{unparse(srt.value.func.value)}.sort()", "grouped by domain")
+        dsp = find_node(fs, lambda n: isinstance(n, ast.Call) and isinstance(n.func, ast.Attribute) and n.func.attr == "split" and isinstance(parent(n), ast.Subscript) and isinstance(parent(parent(n)), ast.ListComp))
+        add("c19-sphinx-domain-list-cut-at-last-colon", "C19.R3", inv, dsp.func if dsp is not None else None, f"{unparse(dsp.func.value)}.rsplit" if dsp is not None else "", "grouped by domain")
+    else:
+        out.append(("c19-sphinx-keys-not-grouped-by-domain", "no sort of the flat keys (fix a6d2b5d) in this tree"))
     if spf is not None:
         add("c19-sphinx-key-split-at-last-colon", "C19.R3", inv, spf.func, f"{unparse(spf.func.value)}.rsplit", "key is split where")
         spa = parent(spf)
@@ -2973,8 +3521,19 @@ def mutants(corpus: Corpus):
         add("c19-unparsable-href-handler-falls-through", "C19.R4", base, hret[0] if hret else None, "pass", "destination cannot be parsed")
         add("c19-unparsable-href-handler-reraises", "C19.R4", base, hret[0] if hret else None, "raise", "destination cannot be parsed")
         add("c19-unparsable-href-warning-dropped", "C19.R4", base, hwarn[0] if hwarn else None, "pass", "destination cannot be parsed")
+    # (no try around the href parse on a tree that splits the destination literally: nothing to mutate)
+    # 59f123f / 7726d50 / 0aebc8a: reverts of the three repairs of the href decomposition
+    pct = find_node(rl, lambda n: isinstance(n, ast.Assign) and isinstance(n.value, ast.Call) and isinstance(n.value.func, ast.Attribute) and n.value.func.attr == "replace" and [unparse(a) for a in n.value.args] == ["'%25'", "'%'"])
+    add("c19-percent-stays-encoded", "C19.R4", base, pct, "pass", "literal % of the destination")
+    spl = find_node(rl, lambda n: isinstance(n, ast.Call) and isinstance(n.func, ast.Attribute) and n.func.attr == "split" and len(n.args) == 2 and unparse(n.args[0]) == "':'" and unparse(n.args[1]) == "2")
+    add("c19-href-type-cut-at-every-colon", "C19.R4", base, spl, f"{unparse(spl.func)}(':')" if spl is not None else "", "everything after the second")
+    prt = find_node(rl, lambda n: isinstance(n, ast.Assign) and isinstance(n.targets[0], ast.Tuple) and len(n.targets[0].elts) == 3 and "partition('#')" in unparse(n.value))
+    if prt is not None and "urlparse" in base.imports:
+        tg = [unparse(e) for e in prt.targets[0].elts]
+        hv = unparse(prt.value.func.value.value.func.value) if isinstance(prt.value, ast.Call) and isinstance(prt.value.func.value, ast.Subscript) and isinstance(prt.value.func.value.value, ast.Call) else "href"
+        add("c19-href-parsed-as-url", "C19.R4", base, prt, f"{tg[0]}, {tg[2]} = urlparse({hv}).path, urlparse({hv}).fragment", "split literally")
     else:
-        out.append(("c19-unparsable-href-handler-falls-through", "no try around the href parse on this tree"))
+        out.append(("c19-href-parsed-as-url", "literal partition of the destination (fix 0aebc8a) not found / urlparse not imported"))
     # class "which inventories are registered depends on the link being resolved"
     gm0 = base.func("DocutilsRenderer.get_inventory_matches")
     ll = find_node(gm0, lambda n: isinstance(n, ast.For) and "inventories.items()" in unparse(n.iter))
@@ -2989,7 +3548,7 @@ def mutants(corpus: Corpus):
         add("c19-base-url-from-load-path", "C19.R4", base, kwarg(fc, "base_url"), unparse(fc.args[0]), "base URL")
         add("c19-inventory-memo-keyed-by-location-only", "C19.R4", base, fc, f"vars(inventory).setdefault('_loaded', {{}}).setdefault({unparse(fc.args[0])}, {unparse(fc)})", "base URL")
     m0 = find_node(rl, lambda n: isinstance(n, ast.Subscript) and unparse(n) == "matches[0]")
-    add("c19-last-match-used", "C19.R4", base, m0, "matches[-1]", "first match", canary=True)
+    add("c19-last-match-used", "C19.R4", base, m0, "matches[-1]", "first match")
     amb = find_node(rl, lambda n: isinstance(n, ast.If) and unparse(n.test) == "len(matches) > 1")
     add("c19-ambiguous-threshold-off-by-one", "C19.R4", base, amb.test if amb is not None else None, "len(matches) > 2", "several matches")
     if amb is not None:
